@@ -19,7 +19,7 @@ def absState (c : Codec V) (d : Bits) : LState V := ⟨items c d, trailing c.w d
 
 /-- One step: same outcome, and the abstraction commutes (items = list after the step, trailing bits unchanged). -/
 theorem array_refines_list_step (c : Codec V) (vo : ValOps V) (hL : 0 < c.w) (hwf : c.WF)
-    (op : Op V) (d : Bits) (hop : admissible c vo d op = true) :
+    (op : Op V) (d : Bits) (hop : admissible c vo op = true) :
     sameOutcome (arrStep c vo op d).res (listStep c vo op (absState c d)).2 ∧
     absState c (arrStep c vo op d).data = (listStep c vo op (absState c d)).1 := by
   sorry
